@@ -43,228 +43,245 @@ func TestVerifBounded_C11_DoUntilQuorum(t *testing.T) {
 	for _, su := range setups {
 		n := len(su.zones)
 		for _, minimize := range []bool{false, true} {
-			for oc := 0; oc < 1<<n; oc++ { // bit i set: instance i fails
-				perms := verifPermsC11(n)
-				for pi, perm := range perms {
-					if !thorough && n == 4 && pi%4 != 0 {
-						continue
-					}
-					if fails > 20 {
-						continue // enough counterexamples: do not spend minutes on time-outs of a broken executor
-					}
-					cases++
-					id := fmt.Sprintf("c11:%s:min=%v:fail=%04b:order=%v", su.name, minimize, oc, perm)
-					var rs ReplicationSet
-					for i, z := range su.zones {
-						rs.Instances = append(rs.Instances, InstanceDesc{Id: fmt.Sprintf("i%d", i), Addr: fmt.Sprintf("i%d", i), Zone: z})
-					}
-					rs.MaxErrors, rs.MaxUnavailableZones, rs.ZoneAwarenessEnabled = su.maxErrors, su.maxZones, su.zoneAware
-					var mu sync.Mutex
-					calls := map[string]int{}
-					cleaned := map[string]int{}
-					ctxs := map[string]context.Context{}
-					release := map[string]chan struct{}{}
-					for _, in := range rs.Instances {
-						release[in.Id] = make(chan struct{})
-					}
-					f := func(ctx context.Context, d *InstanceDesc) (string, error) {
-						mu.Lock()
-						calls[d.Id]++
-						ctxs[d.Id] = ctx
-						mu.Unlock()
-						<-release[d.Id] // scripted completion, regardless of cancellation (late results must still be cleaned)
-						idx := int(d.Id[1] - '0')
-						if oc&(1<<idx) != 0 {
-							if idx%2 == 0 {
-								// a failure that merely looks like a cancellation (e.g. an upstream's cancelled call) is still a failure
-								return "", fmt.Errorf("boom-%s: upstream closed: %w", d.Id, context.Canceled)
-							}
-							return "", errors.New("boom-" + d.Id)
+			for _, keepCtx := range []bool{false, true} { // true: the variant that leaves the contexts of the returned calls alive
+				for oc := 0; oc < 1<<n; oc++ { // bit i set: instance i fails
+					perms := verifPermsC11(n)
+					for pi, perm := range perms {
+						if !thorough && n == 4 && pi%4 != 0 {
+							continue
 						}
-						return "res-" + d.Id, nil
-					}
-					type out struct {
-						res []string
-						err error
-					}
-					done := make(chan out, 1)
-					go func() {
-						res, err := DoUntilQuorum(context.Background(), rs, DoUntilQuorumConfig{MinimizeRequests: minimize, HedgingDelay: time.Hour}, f, func(s string) {
+						if !thorough && keepCtx && pi%2 != 0 {
+							continue
+						}
+						if fails > 20 {
+							continue // enough counterexamples: do not spend minutes on time-outs of a broken executor
+						}
+						cases++
+						id := fmt.Sprintf("c11:%s:min=%v:keepctx=%v:fail=%04b:order=%v", su.name, minimize, keepCtx, oc, perm)
+						var rs ReplicationSet
+						for i, z := range su.zones {
+							rs.Instances = append(rs.Instances, InstanceDesc{Id: fmt.Sprintf("i%d", i), Addr: fmt.Sprintf("i%d", i), Zone: z})
+						}
+						rs.MaxErrors, rs.MaxUnavailableZones, rs.ZoneAwarenessEnabled = su.maxErrors, su.maxZones, su.zoneAware
+						var mu sync.Mutex
+						calls := map[string]int{}
+						cleaned := map[string]int{}
+						ctxs := map[string]context.Context{}
+						release := map[string]chan struct{}{}
+						for _, in := range rs.Instances {
+							release[in.Id] = make(chan struct{})
+						}
+						f := func(ctx context.Context, d *InstanceDesc) (string, error) {
 							mu.Lock()
-							cleaned[s]++
+							calls[d.Id]++
+							ctxs[d.Id] = ctx
 							mu.Unlock()
-						})
-						done <- out{res, err}
-					}()
-					completed := map[string]bool{}
-					var o out
-					returned := false
-					succ, failc := 0, 0
-					zoneWaiting, zoneFailed := map[string]int{}, map[string]int{}
-					for _, z := range su.zones {
-						zoneWaiting[z]++
-					}
-					decided := false
-					for step := 0; step < n && !returned; step++ {
-						// next instance in the order that has been called and not completed
-						var pick string
-						deadline := time.Now().Add(300 * time.Millisecond)
-						for pick == "" && time.Now().Before(deadline) {
-							mu.Lock()
-							for _, idx := range perm {
-								iid := fmt.Sprintf("i%d", idx)
-								if calls[iid] > 0 && !completed[iid] {
-									pick = iid
-									break
+							<-release[d.Id] // scripted completion, regardless of cancellation (late results must still be cleaned)
+							idx := int(d.Id[1] - '0')
+							if oc&(1<<idx) != 0 {
+								if idx%2 == 0 {
+									// a failure that merely looks like a cancellation (e.g. an upstream's cancelled call) is still a failure
+									return "", fmt.Errorf("boom-%s: upstream closed: %w", d.Id, context.Canceled)
+								}
+								return "", errors.New("boom-" + d.Id)
+							}
+							return "res-" + d.Id, nil
+						}
+						type out struct {
+							res []string
+							err error
+						}
+						done := make(chan out, 1)
+						go func() {
+							cleanup := func(s string) {
+								mu.Lock()
+								cleaned[s]++
+								mu.Unlock()
+							}
+							cfg := DoUntilQuorumConfig{MinimizeRequests: minimize, HedgingDelay: time.Hour}
+							var res []string
+							var err error
+							if keepCtx {
+								res, err = DoUntilQuorumWithoutSuccessfulContextCancellation(context.Background(), rs, cfg, func(ctx context.Context, d *InstanceDesc, _ context.CancelCauseFunc) (string, error) {
+									return f(ctx, d)
+								}, cleanup)
+							} else {
+								res, err = DoUntilQuorum(context.Background(), rs, cfg, f, cleanup)
+							}
+							done <- out{res, err}
+						}()
+						completed := map[string]bool{}
+						var o out
+						returned := false
+						succ, failc := 0, 0
+						zoneWaiting, zoneFailed := map[string]int{}, map[string]int{}
+						for _, z := range su.zones {
+							zoneWaiting[z]++
+						}
+						decided := false
+						for step := 0; step < n && !returned; step++ {
+							// next instance in the order that has been called and not completed
+							var pick string
+							deadline := time.Now().Add(300 * time.Millisecond)
+							for pick == "" && time.Now().Before(deadline) {
+								mu.Lock()
+								for _, idx := range perm {
+									iid := fmt.Sprintf("i%d", idx)
+									if calls[iid] > 0 && !completed[iid] {
+										pick = iid
+										break
+									}
+								}
+								mu.Unlock()
+								if pick == "" {
+									select {
+									case o = <-done:
+										returned = true
+									case <-time.After(200 * time.Microsecond):
+									}
+									if returned {
+										break
+									}
 								}
 							}
-							mu.Unlock()
 							if pick == "" {
+								break
+							}
+							completed[pick] = true
+							close(release[pick])
+							idx := int(pick[1] - '0')
+							z := su.zones[idx]
+							zoneWaiting[z]--
+							if oc&(1<<idx) != 0 {
+								failc++
+								zoneFailed[z]++
+							} else {
+								succ++
+							}
+							okNow, errNow := false, false
+							if !su.zoneAware {
+								okNow = succ >= n-su.maxErrors
+								errNow = failc > su.maxErrors
+							} else {
+								zs := map[string]bool{}
+								for _, zz := range su.zones {
+									zs[zz] = true
+								}
+								good, bad := 0, 0
+								for zz := range zs {
+									if zoneFailed[zz] > 0 {
+										bad++
+									} else if zoneWaiting[zz] == 0 {
+										good++
+									}
+								}
+								okNow = good >= len(zs)-su.maxZones
+								errNow = bad > su.maxZones
+							}
+							if okNow || errNow {
+								decided = true
 								select {
 								case o = <-done:
 									returned = true
-								case <-time.After(200 * time.Microsecond):
+								case <-time.After(2 * time.Second):
+									report(id+":late", fmt.Sprintf("criterion met after %v (ok=%v err=%v) but DoUntilQuorum has not returned", completed, okNow, errNow))
 								}
-								if returned {
-									break
+								if returned && (o.err == nil) != okNow {
+									report(id+":verdict", fmt.Sprintf("returned err=%v although success criterion=%v failure criterion=%v after %v", o.err, okNow, errNow, completed))
 								}
-							}
-						}
-						if pick == "" {
-							break
-						}
-						completed[pick] = true
-						close(release[pick])
-						idx := int(pick[1] - '0')
-						z := su.zones[idx]
-						zoneWaiting[z]--
-						if oc&(1<<idx) != 0 {
-							failc++
-							zoneFailed[z]++
-						} else {
-							succ++
-						}
-						okNow, errNow := false, false
-						if !su.zoneAware {
-							okNow = succ >= n-su.maxErrors
-							errNow = failc > su.maxErrors
-						} else {
-							zs := map[string]bool{}
-							for _, zz := range su.zones {
-								zs[zz] = true
-							}
-							good, bad := 0, 0
-							for zz := range zs {
-								if zoneFailed[zz] > 0 {
-									bad++
-								} else if zoneWaiting[zz] == 0 {
-									good++
+							} else {
+								select {
+								case o = <-done:
+									returned = true
+									report(id+":early", fmt.Sprintf("returned (%v, %v) before either criterion held; completed %v", o.res, o.err, completed))
+								case <-time.After(300 * time.Microsecond):
 								}
 							}
-							okNow = good >= len(zs)-su.maxZones
-							errNow = bad > su.maxZones
 						}
-						if okNow || errNow {
-							decided = true
+						if !returned {
 							select {
 							case o = <-done:
 								returned = true
 							case <-time.After(2 * time.Second):
-								report(id+":late", fmt.Sprintf("criterion met after %v (ok=%v err=%v) but DoUntilQuorum has not returned", completed, okNow, errNow))
-							}
-							if returned && (o.err == nil) != okNow {
-								report(id+":verdict", fmt.Sprintf("returned err=%v although success criterion=%v failure criterion=%v after %v", o.err, okNow, errNow, completed))
-							}
-						} else {
-							select {
-							case o = <-done:
-								returned = true
-								report(id+":early", fmt.Sprintf("returned (%v, %v) before either criterion held; completed %v", o.res, o.err, completed))
-							case <-time.After(300 * time.Microsecond):
+								report(id+":hang", fmt.Sprintf("did not return; completed %v decided=%v", completed, decided))
 							}
 						}
-					}
-					if !returned {
-						select {
-						case o = <-done:
-							returned = true
-						case <-time.After(2 * time.Second):
-							report(id+":hang", fmt.Sprintf("did not return; completed %v decided=%v", completed, decided))
-						}
-					}
-					// results: only from successful completed calls; zone mode: only from complete failure-free zones
-					if returned && o.err == nil {
-						for _, r := range o.res {
-							iid := r[4:]
-							idx := int(iid[1] - '0')
-							if !completed[iid] || oc&(1<<idx) != 0 {
-								report(id+":result-origin", fmt.Sprintf("result %s does not come from a completed successful call", r))
+						// results: only from successful completed calls; zone mode: only from complete failure-free zones
+						if returned && o.err == nil {
+							for _, r := range o.res {
+								iid := r[4:]
+								idx := int(iid[1] - '0')
+								if !completed[iid] || oc&(1<<idx) != 0 {
+									report(id+":result-origin", fmt.Sprintf("result %s does not come from a completed successful call", r))
+								}
+								if su.zoneAware && (zoneFailed[su.zones[idx]] > 0 || zoneWaiting[su.zones[idx]] > 0) {
+									report(id+":result-zone", fmt.Sprintf("result %s comes from zone %q which is incomplete or failed", r, su.zones[idx]))
+								}
 							}
-							if su.zoneAware && (zoneFailed[su.zones[idx]] > 0 || zoneWaiting[su.zones[idx]] > 0) {
-								report(id+":result-zone", fmt.Sprintf("result %s comes from zone %q which is incomplete or failed", r, su.zones[idx]))
+							if !su.zoneAware && len(o.res) < n-su.maxErrors {
+								report(id+":result-count", fmt.Sprintf("%d results, need %d", len(o.res), n-su.maxErrors))
 							}
 						}
-						if !su.zoneAware && len(o.res) < n-su.maxErrors {
-							report(id+":result-count", fmt.Sprintf("%d results, need %d", len(o.res), n-su.maxErrors))
-						}
-					}
-					// let every remaining call finish; every successful result that was not returned is cleaned exactly once
-					for _, in := range rs.Instances {
-						if !completed[in.Id] {
-							close(release[in.Id])
-						}
-					}
-					returnedSet := map[string]bool{}
-					if returned && o.err == nil {
-						for _, r := range o.res {
-							returnedSet[r] = true
-						}
-					}
-					okc := false
-					for w := 0; w < 400 && !okc; w++ {
-						okc = true
-						mu.Lock()
+						// let every remaining call finish; every successful result that was not returned is cleaned exactly once
 						for _, in := range rs.Instances {
-							idx := int(in.Id[1] - '0')
-							r := "res-" + in.Id
-							if calls[in.Id] > 0 && oc&(1<<idx) == 0 && !returnedSet[r] && cleaned[r] != 1 {
-								okc = false
+							if !completed[in.Id] {
+								close(release[in.Id])
+							}
+						}
+						returnedSet := map[string]bool{}
+						if returned && o.err == nil {
+							for _, r := range o.res {
+								returnedSet[r] = true
+							}
+						}
+						okc := false
+						for w := 0; w < 400 && !okc; w++ {
+							okc = true
+							mu.Lock()
+							for _, in := range rs.Instances {
+								idx := int(in.Id[1] - '0')
+								r := "res-" + in.Id
+								if calls[in.Id] > 0 && oc&(1<<idx) == 0 && !returnedSet[r] && cleaned[r] != 1 {
+									okc = false
+								}
+							}
+							mu.Unlock()
+							if !okc {
+								time.Sleep(time.Millisecond)
+							}
+						}
+						mu.Lock()
+						var cs []string
+						for k, v := range cleaned {
+							cs = append(cs, fmt.Sprintf("%s x%d", k, v))
+							if v > 1 || returnedSet[k] {
+								report(id+":cleanup-twice-or-returned", fmt.Sprintf("%s cleaned %d times, returned=%v", k, v, returnedSet[k]))
+							}
+						}
+						sort.Strings(cs)
+						if !okc {
+							report(id+":cleanup-missing", fmt.Sprintf("some successful unreturned result was not cleaned: cleaned=%v returned=%v calls=%v", cs, o.res, calls))
+						}
+						for k, c := range calls {
+							if c > 1 {
+								report(id+":called-twice", fmt.Sprintf("%s called %d times", k, c))
+							}
+						}
+						// DoUntilQuorum cancels every context before returning; the variant that keeps contexts alive does so only
+						// for the calls whose results it returned
+						for k, cx := range ctxs {
+							used := keepCtx && returnedSet["res-"+k]
+							if returned && cx.Err() == nil && !used {
+								report(id+":context", fmt.Sprintf("context of %s not cancelled after return although its result is not used (returned %v, err %v)", k, o.res, o.err))
 							}
 						}
 						mu.Unlock()
-						if !okc {
-							time.Sleep(time.Millisecond)
-						}
 					}
-					mu.Lock()
-					var cs []string
-					for k, v := range cleaned {
-						cs = append(cs, fmt.Sprintf("%s x%d", k, v))
-						if v > 1 || returnedSet[k] {
-							report(id+":cleanup-twice-or-returned", fmt.Sprintf("%s cleaned %d times, returned=%v", k, v, returnedSet[k]))
-						}
-					}
-					sort.Strings(cs)
-					if !okc {
-						report(id+":cleanup-missing", fmt.Sprintf("some successful unreturned result was not cleaned: cleaned=%v returned=%v calls=%v", cs, o.res, calls))
-					}
-					for k, c := range calls {
-						if c > 1 {
-							report(id+":called-twice", fmt.Sprintf("%s called %d times", k, c))
-						}
-					}
-					// DoUntilQuorum cancels every context before returning
-					for k, cx := range ctxs {
-						if returned && cx.Err() == nil {
-							report(id+":context", fmt.Sprintf("context of %s not cancelled after return", k))
-						}
-					}
-					mu.Unlock()
 				}
 			}
 		}
 	}
-	fmt.Printf("BOUNDED-CASES name=C11_DoUntilQuorum n=%d distinct=%d bound=7 replication sets (<=4 instances, <=3 zones, tolerance 0..2) x minimisation on/off x every failure vector (plain errors and errors wrapping context.Canceled) x completion orders (all; quick: a quarter for 4 instances); calls complete only when released\n", cases, cases)
+	fmt.Printf("BOUNDED-CASES name=C11_DoUntilQuorum n=%d distinct=%d bound=7 replication sets (<=4 instances, <=3 zones, tolerance 0..2) x minimisation on/off x both executors (all contexts cancelled on return / contexts of returned calls kept) x every failure vector (plain errors and errors wrapping context.Canceled) x completion orders (all; quick: a quarter for 4 instances); calls complete only when released\n", cases, cases)
 	if fails > 0 {
 		t.Fatalf("%d mismatches", fails)
 	}
